@@ -32,6 +32,12 @@ var _ = url.Parse
 //@   ensures cat: verifUnescOK(a + b) == verifUnescOK(b) && (verifUnescOK(b) ==> verifUnescVal(a + b) == a + verifUnescVal(b))
 //@   trigger verifUnescVal(a + b)
 
+//@ lemma pathUnescapeBytePrefix(c byte, b string)
+//@   trusted special case of pathUnescapePlainPrefix for a one-byte prefix other than '%' (style prefixes "." and ";")
+//@   requires plain: c != '%'
+//@   ensures cat: verifUnescOK(str1(c) + b) == verifUnescOK(b) && (verifUnescOK(b) ==> verifUnescVal(str1(c) + b) == str1(c) + verifUnescVal(b))
+//@   trigger verifUnescVal(str1(c) + b)
+
 //@ lemma pathUnescapeCat(a string, b string)
 //@   trusted net/url unescape works left to right on complete %XX tokens: if both halves unescape on their own, the concatenation unescapes to the concatenation
 //@   requires ok: verifUnescOK(a) && verifUnescOK(b)
